@@ -76,3 +76,23 @@ Proof.
   rewrite vanilla_source_dec_run. change {| h_key := K; h_st := {| c_idx := 0; c_prev := 0 |} |} with (half_new K).
   rewrite (dec_calls K chunks HK). reflexivity.
 Qed.
+
+(* ---- EncrypterHalf::encrypt / DecrypterHalf::decrypt: the methods themselves (which field is passed as
+   the key, which two as the running state, that the state is written back) ---- *)
+Definition vhalf_full (r : nres (half * list N)) : option ((list N * N * N) * unit * list N) :=
+  match r with Ok (h, out) => Some ((h_key h, c_idx (h_st h), c_prev (h_st h)), tt, out) | _ => None end.
+
+Lemma vanilla_half_encrypt_translated : forall h data,
+  tr_vanilla_half_encrypt (h_key h) (c_idx (h_st h)) (c_prev (h_st h)) data = vhalf_full (encrypt h data).
+Proof.
+  intros h data. unfold tr_vanilla_half_encrypt, encrypt.
+  change (c_idx (h_st h), c_prev (h_st h)) with (cst_pair (h_st h)). rewrite vanilla_encrypt_translated.
+  destruct (enc_loop _ _ _ _) as [[s out]|]; reflexivity.
+Qed.
+Lemma vanilla_half_decrypt_translated : forall h data,
+  tr_vanilla_half_decrypt (h_key h) (c_idx (h_st h)) (c_prev (h_st h)) data = vhalf_full (decrypt h data).
+Proof.
+  intros h data. unfold tr_vanilla_half_decrypt, decrypt.
+  change (c_idx (h_st h), c_prev (h_st h)) with (cst_pair (h_st h)). rewrite vanilla_decrypt_translated.
+  destruct (dec_loop _ _ _ _) as [[s out]|]; reflexivity.
+Qed.
